@@ -160,6 +160,9 @@ func (r *Router) handleHTTPRequest(ctx *Context) {
 	// matching route
 	route, params, allowed := r.QuickMatch(ctx.Req.Method, path)
 
+	// Notice: the chain is always built in a new slice. r.handlers, route.handlers, r.noRoute and
+	// r.noAllowed are shared by all requests, appending to them here would let concurrent requests
+	// overwrite each other's handlers.
 	var handlers HandlersChain
 	if route != nil { // found route
 		// save route params
@@ -167,27 +170,24 @@ func (r *Router) handleHTTPRequest(ctx *Context) {
 		ctx.Set(CTXCurrentRouteName, route.name)
 		ctx.Set(CTXCurrentRoutePath, path)
 
-		// append main handler to last
-		handlers = append(route.handlers, route.handler)
+		// global middleware + route middleware, append main handler to last
+		handlers = make(HandlersChain, 0, len(r.handlers)+len(route.handlers)+1)
+		handlers = append(handlers, r.handlers...)
+		handlers = append(handlers, route.handlers...)
+		handlers = append(handlers, route.handler)
 	} else if len(allowed) > 0 { // method not allowed
-		if len(r.noAllowed) == 0 {
-			r.noAllowed = HandlersChain{internal405Handler}
-		}
-
 		// add allowed methods to context
 		ctx.Set(CTXAllowedMethods, allowed)
-		handlers = r.noAllowed
-	} else { // not found route
-		if len(r.noRoute) == 0 {
-			r.noRoute = HandlersChain{internal404Handler}
+
+		handlers = combineHandlers(r.handlers, r.noAllowed)
+		if len(r.noAllowed) == 0 {
+			handlers = append(handlers, internal405Handler)
 		}
-
-		handlers = r.noRoute
-	}
-
-	// has global middleware handlers
-	if len(r.handlers) > 0 {
-		handlers = append(r.handlers, handlers...)
+	} else { // not found route
+		handlers = combineHandlers(r.handlers, r.noRoute)
+		if len(r.noRoute) == 0 {
+			handlers = append(handlers, internal404Handler)
+		}
 	}
 
 	ctx.SetHandlers(handlers)
